@@ -489,18 +489,10 @@ fn cmd_check(engine: &dyn Engine, prop: &str, tier: Tier, known: &Known) -> i32 
         }
     }
 
-    // known findings met by runs
-    let mut printed_known = BTreeSet::new();
-    for sig in known_hits.keys() {
-        if let Some((p, s)) = sig.split_once(':') {
-            if p == prop {
-                if let Some(k) = known.is_known(p, s) {
-                    if printed_known.insert(sig.clone()) {
-                        println!("KNOWN-FINDING: property={} {} [{}]", p, k.what, k.signature);
-                    }
-                }
-            }
-        }
+    // known findings of this property: one line each, with how often this batch reached it
+    for k in known.entries.iter().filter(|k| k.status == "known" && k.property == prop) {
+        let hits = known_hits.get(&format!("{}:{}", k.property, k.signature)).copied().unwrap_or(0);
+        println!("KNOWN-FINDING: property={} {} [{}; reached in {} run(s) of this batch]", k.property, k.what, k.signature, hits);
     }
 
     // minimise + verify + report own violations (at most 4 distinct signatures, minimised in parallel)
